@@ -20,11 +20,14 @@ pub fn no_child(_: &[String]) -> i32 {
 
 pub mod okey;
 pub mod btree;
+pub mod englib;
+pub mod pager;
 
 pub fn all() -> Vec<StreamDef> {
     vec![
         okey::def(),
         btree::def(),
+        pager::def(),
     ]
 }
 
